@@ -290,7 +290,12 @@ func handleMethod(svr interface{}, serviceName string, desc *grpc.MethodDesc, un
 		toHeaders(sts.GetHeaders(), w.Header(), "")
 		toHeaders(sts.GetTrailers(), w.Header(), "X-GRPC-Trailer-")
 		if err != nil {
-			st, _ := status.FromError(err)
+			st, ok := status.FromError(err)
+			if !ok {
+				// not a status error: context errors map to Canceled and
+				// DeadlineExceeded, as with a gRPC server
+				st = status.FromContextError(err)
+			}
 			if st.Code() == codes.OK {
 				// preserve all error details, but rewrite the code since we don't want
 				// to send back a non-error status when we know an error occured
@@ -387,7 +392,12 @@ func handleStream(svr interface{}, serviceName string, desc *grpc.StreamDesc, st
 			Metadata: asTrailerProto(metadata.Join(str.tr...)),
 		}
 		if err != nil {
-			st, _ := status.FromError(err)
+			st, ok := status.FromError(err)
+			if !ok {
+				// not a status error: context errors map to Canceled and
+				// DeadlineExceeded, as with a gRPC server
+				st = status.FromContextError(err)
+			}
 			if st.Code() == codes.OK {
 				// preserve all error details, but rewrite the code since we don't want
 				// to send back a non-error status when we know an error occured
